@@ -11,7 +11,7 @@ CHECKS = {
     "C01": dict(cat="model_checking", design="7/C01", technique="TLA+ spec (STFS.tla: C01_RebuildEq) model-checked with TLC; TLC-generated behaviours replayed on the real filesystem, running view vs rebuilt-from-tape vs reopened compared after every call",
                 text="TLC proves on the bounded design that the live index always equals a replay of the tape from scratch; every TLC-generated call history is executed on the real code under seeded concretisations (names, contents, pipeline configurations, record sizes) and after every call the running instance is compared field by field (names, kinds, sizes, modes, owners, mtimes, link targets, content hashes) with an index rebuilt from the tape alone and with a fresh process over the same index. Histories include batched Operations.Archive and Operations.Update(replace) calls with 1-2 members; symbolic links are known finding K05 (a witness history is replayed on every run)."),
     "C02": dict(cat="model_checking", design="7/C02", technique="TLA+ reference filesystem (RefFS.tla) + STFS.tla refinement invariant C02_RefEq checked by TLC; generated behaviours replayed, outcome and whole tree compared with the reference after every call",
-                text="The reference filesystem is part of the specification; TLC checks that the modelled index always shows exactly the reference tree and that failed calls change nothing. Each generated behaviour carries the reference's outcome and tree after every call; the real filesystem must succeed/fail exactly alike, show exactly that tree (kinds, byte contents, permissions/owners/mtimes set by calls) and leave tape and index untouched on failure."),
+                text="Histories include file handles that stay open across other calls (HOpen/HWrite/HSync/HClose for two handles, interleaved with renames, removals, chmods and rewrites of the handle's path): STFS.tla states the code's write-back handle design and MC_STFS_handles.cfg checks all invariants with a handle open; where that design departs from an ordinary filesystem is known finding K06a-c, shown by a fixed witness. The reference filesystem is part of the specification; TLC checks that the modelled index always shows exactly the reference tree and that failed calls change nothing. Each generated behaviour carries the reference's outcome and tree after every call; the real filesystem must succeed/fail exactly alike, show exactly that tree (kinds, byte contents, permissions/owners/mtimes set by calls) and leave tape and index untouched on failure."),
     "C04": dict(cat="model_checking", design="7/C04", technique="TLA+ (Tape.tla Pos, STFS.tla C04_Positions/C04_Last) checked by TLC; replay compares every live row's (record, block) with an independent tar scan and fetches at the position",
                 text="TLC checks on the block-level tape model that every live row's position is the unique content-carrying record of the entry's current content, that block < record size, lk >= pos and that the last indexed position is the final record. On the real code, after every call of every generated behaviour, each row's position must be the start of the record the model names (k-th content record under the name the entry had then), recovery.Fetch at it must return the current content, and max(lastknown) must be the last scanned record, for record sizes 1..64."),
     "C05": dict(cat="model_checking", design="7/C05", technique="TLA+ action property C05_AppendOnly + invariant C05_TarShape checked by TLC; replay checks prefix-hash, 512 alignment, independent archive/tar iteration and member data after every call",
@@ -25,7 +25,7 @@ CHECKS = {
 }
 
 CHECKS.update({
-    "C06": dict(cat="fault_enumeration", design="7/C06", technique="TLA+ invariant C06_Prefix (every cut of every reachable tape) checked by TLC; crash-point enumeration on real tapes: the drive file is cut at byte offsets and rebuilt with recovery.Index",
+    "C06": dict(cat="fault_enumeration", design="7/C06", technique="TLA+ invariant C06_Prefix (every cut of every reachable tape) checked by TLC; crash-point enumeration on real tapes: the drive file is cut at byte offsets and rebuilt with recovery.Index (every compression format in every run; the cuts directly behind the header of every data record are always kept)",
                 note="a crash is modelled as truncation of the drive file at a byte offset; trusted: TLC, archive/tar scan for region classification",
                 text="TLC checks on the block-level model that for every cut the rebuilt state is the state after the last whole record, except for the one entry whose header survived. Histories generated from the specification are executed, the final tape is cut at every region boundary +-1 byte, mid-region and (thorough) at every byte of small tapes; each cut must rebuild without hang or panic, every entry but the torn one must equal (attributes and content hash) the rebuild at the last record boundary, the torn entry must be old, or carry the new metadata with an error or the right bytes on read, and rebuilds at call boundaries must equal the specification's tree."),
     "C15": dict(cat="model_checking", design="7/C15", technique="TLA+ spec ReadOnly.tla (two-phase: populate, then read-only calls) checked by TLC: C15_ReadOnly action property, mutators denied, readers agree; its behaviours replayed on readOnly=true and no-write-backend instances with tape hash and index dump before/after every call",
@@ -55,14 +55,14 @@ PIPE_NOTE = "Pipeline.tla treats codecs, ciphers and signatures as opaque constr
 CHECKS.update({
     "C03": dict(cat="model_checking", design="7/C03", note=PIPE_NOTE, technique="TLA+ term model Pipeline.tla (suffix rules, encoded vs uncompressed size, data-carrying records, sign-then-encrypt wrapping, empty-record rule) checked by TLC over the configuration x operation x size x name-kind matrix; every sampled matrix cell executed on the real pipeline through fs, Restore, Fetch, reopen and rebuild",
                 text="TLC evaluates C03_RoundTrip and C03_SuffixInverse on all 1152 cells of the protocol model and the check aborts if the model no longer detects the repaired suffix defect. Cells (compression x level x encryption x signature x record size x write cache x size class x distribution x name kind incl. names that end in the pipeline suffix) are executed on the real code: created-never-written, fs write/read, reopen, Operations.Restore, recovery.Fetch at the indexed position, content update, empty update, archive-with-content, rebuild, and the non-regular codec parameters / tape-writer padding through a build-tag hook; bytes and reported size must equal what was written."),
-    "C08": dict(cat="model_checking", design="7/C08", note=PIPE_NOTE, technique="TLA+ Pipeline.tla property C08_OnlySigned (adversary without the signing key, 5 forgery kinds) checked by TLC; on real tapes single-byte alterations and structured forgeries are applied and every header the indexer accepts / every restored content is compared with what the untouched tape yields",
+    "C08": dict(cat="model_checking", design="7/C08", note=PIPE_NOTE, technique="TLA+ Pipeline.tla property C08_OnlySigned (adversary without the signing key, 5 forgery kinds) checked by TLC; on real tapes single-byte alterations and structured forgeries are applied and every header the indexer accepts / every restored content is compared with what the untouched tape yields; every file of an altered tape is read three ways (64 KiB chunks, exactly Stat's size, io.ReadAll) and a refused write on a read-write handle is retried on the same handle",
                 text="The protocol model shows that a reader accepting only headers whose signature verifies under the writer's key rejects every forgery the adversary can build. On real tapes written under {minisign, pgp} x encryption x compression, bytes are altered (spread positions plus every record's header, PAX and data regions; thorough: every fifth byte) and forged archives are appended (unsigned member, missing/empty/garbage/re-encoded signature, reused or swapped signature, edited header with kept signature, other key); the rebuilt index may only contain headers the untouched tape yields and each restore returns bytes signed under that name or an error, without hang or panic."),
     "C09": dict(cat="model_checking", design="7/C09", note=PIPE_NOTE, technique="TLA+ Pipeline.tla properties C09_Clear (parts derivable without keys) and C09_WrongKey checked by TLC; marker search (raw, hex, base64 x3) over the raw tape, key-less outer-header inspection and wrong-key rebuild/fetch on real tapes",
                 text="In the term model nothing but sealed terms and sizes is derivable from a record without the key, for every operation kind. Real histories embedding unique markers in names, renamed names, contents, owners and timestamps are written under {age, pgp} x signature x compression; no marker or STFS keyword may occur on the raw tape in raw, hex or base64 form, key-less parsing of every outer header may show only the stored size and one STFS.EmbeddedHeader record, and rebuilding or fetching with another private key must fail."),
 })
 
 CHECKS.update({
-    "C17": dict(cat="model_checking", design="7/C17", technique="TLA+ transcription Roots.tla of getSanitizedPath / GetRootPath / inventory.Stat / BasePathFs over structured names, evaluated by TLC for every root shape x tree x member x spelling; real archives written by archive/tar (ustar/PAX/GNU x 4 root shapes x name pools) opened through the documented composition",
+    "C17": dict(cat="model_checking", design="7/C17", technique="TLA+ transcription Roots.tla of getSanitizedPath / GetRootPath / inventory.Stat / BasePathFs over structured names, evaluated by TLC for every root shape x tree x member x spelling; real archives written by archive/tar (ustar/PAX/GNU x 4 root shapes x name pools) opened through the documented composition; archives are also padded with zero blocks behind the end-of-archive marker (as GNU tar pads to its blocking factor) and followed by removals / chmods / renames of original members and additions, then rebuilt",
                 note="archives contain an entry for their top-level directory (as the property states); trusted: archive/tar as the standard tar writer",
                 text="Roots.tla transcribes the seven-way case analysis of path sanitising and the root inference and TLC checks that, for each root shape tar produces, every member is found under the spellings '/d/f', 'd/f' and './d/f', distinct members resolve to distinct rows and the inferred root is the archive's top entry. Generated trees (depth <= 3, long/non-ASCII/wildcard/suffix-like names, sizes 0..33000) are written in three tar formats and four root styles, opened with Initialize + NewCacheFilesystem; every member must be listed exactly once under its directory and read back byte-identical, the three spellings must stat and read the same entry, entries added through the filesystem must coexist, and an original member is chmod-ed, one renamed with its subtree and one removed; everything must survive a rebuild."),
     "C18": dict(cat="model_checking", design="7/C18", technique="TLA+ oracle table Keys.tla (role x format x password class x parse password x pair -> expected outcome) enumerated by TLC; every tuple executed through utility.Keygen, keys.Parse*, Encrypt/Decrypt(String) and Sign/Verify(String) on two freshly generated pairs",
